@@ -50,6 +50,21 @@ def _lib_frames(lines, limit=3):
     return out
 
 
+def _harness_frames(lines, limit=2):
+    """Innermost frames located in harness sources (the harness touched memory the library handed it)."""
+    out = []
+    for ln in lines:
+        m = FRAME_RE.match(ln)
+        if not m:
+            continue
+        fn, loc = m.group(2), m.group(3) or ""
+        if "/harness/" in loc and not fn.startswith("__"):
+            out.append(fn)
+            if len(out) >= limit:
+                break
+    return out
+
+
 def _first_stack(lines, start):
     """Lines of the first stack block at or after index start."""
     blk = []
@@ -74,7 +89,11 @@ def sanitizer_keys(text):
             if kind == "attempting":
                 mm = re.search(r"AddressSanitizer: attempting (\S+)", ln)
                 kind = mm.group(1) if mm else kind
-            fr = _lib_frames(_first_stack(lines, i))
+            stk = _first_stack(lines, i)
+            fr = _lib_frames(stk)
+            if not fr:
+                hf = _harness_frames(stk)
+                fr = ["harness"] + hf if hf else []
             keys.append("asan:%s:%s" % (kind, "<".join(fr) or "?"))
             continue
         m = re.search(r"runtime error: (.*)$", ln)
